@@ -784,9 +784,22 @@ func oracle(r runner, cfg Cfg, o obsRec, maxWinIn, maxWinOut int, ips []int) *ve
 	return nil
 }
 
+// nextFn yields the next event of a schedule given the state of the run so far (generated
+// schedules pick among the attempts that have not returned yet); ok=false ends the schedule.
+type nextFn func(r runner, i int) (Event, bool)
+
+func fixed(evs []Event) nextFn {
+	return func(_ runner, i int) (Event, bool) {
+		if i < len(evs) {
+			return evs[i], true
+		}
+		return Event{}, false
+	}
+}
+
 // runSched executes one schedule on a fresh controller; emits the correspondence case and
-// reports the first oracle failure.
-func runSched(c *hx.Ctx, prog *Prog, s Sched, emit bool) {
+// reports the first oracle failure. The executed events are recorded in s.Events.
+func runSched(c *hx.Ctx, prog *Prog, s Sched, next nextFn) {
 	var r runner
 	if s.Level == "A" {
 		r = newRunnerA(s.Cfg)
@@ -794,25 +807,26 @@ func runSched(c *hx.Ctx, prog *Prog, s Sched, emit bool) {
 		r = newRunnerB(s.Cfg, prog)
 	}
 	defer r.Shutdown()
+	if next == nil {
+		next = fixed(s.Events)
+		s.Events = nil
+	}
 	ipset := map[int]bool{}
-	for _, e := range s.Events {
-		if e.Kind == "spawn" {
-			ipset[e.IP] = true
-		}
-	}
-	var ips []int
-	for ip := range ipset {
-		ips = append(ips, ip)
-	}
-	sort.Ints(ips)
 	var steps []string
 	maxWinIn, maxWinOut := 0, 0
 	failed := false
 	saves := 0
-	for i, e := range s.Events {
+	prevObs := ""
+	for i := 0; ; i++ {
+		e, ok := next(r, i)
+		if !ok {
+			break
+		}
+		s.Events = append(s.Events, e)
 		var err error
 		switch e.Kind {
 		case "spawn":
+			ipset[e.IP] = true
 			err = r.Spawn(e)
 		case "run", "adv":
 			if (e.Kind == "adv") != (s.Level == "A") {
@@ -822,6 +836,8 @@ func runSched(c *hx.Ctx, prog *Prog, s Sched, emit bool) {
 			}
 		case "close":
 			err = r.Close(e.Idx)
+		default:
+			err = fmt.Errorf("unknown event kind %q", e.Kind)
 		}
 		c.Eval()
 		c.Count("event:" + s.Level + ":" + e.Kind)
@@ -837,13 +853,22 @@ func runSched(c *hx.Ctx, prog *Prog, s Sched, emit bool) {
 			maxWinOut = o.winOut
 		}
 		saves = int(o.snap.NextConnectId)
-		steps = append(steps, "("+e.coq()+", "+o.coq()+")")
+		ot := o.coq()
+		if ot == prevObs {
+			steps = append(steps, "("+e.coq()+", Same)")
+		} else {
+			steps = append(steps, "("+e.coq()+", "+ot+")")
+			prevObs = ot
+		}
 		if !failed {
+			var ips []int
+			for ip := range ipset {
+				ips = append(ips, ip)
+			}
+			sort.Ints(ips)
 			if v := oracle(r, s.Cfg, o, maxWinIn, maxWinOut, ips); v != nil {
 				failed = true
-				in := s
-				in.Events = s.Events[:i+1]
-				c.Fail(v.class, v.clause, in, v.got, v.want)
+				c.Fail(v.class, v.clause, s, v.got, v.want)
 				c.Count("oracle:" + v.class)
 			}
 		}
@@ -856,13 +881,12 @@ func runSched(c *hx.Ctx, prog *Prog, s Sched, emit bool) {
 		mw = maxWinOut
 	}
 	c.Count(fmt.Sprintf("max_overlap:%d", mw))
+	c.Count(fmt.Sprintf("attempts:%d", len(r.Statuses())))
 	if len(s.Events) >= 6 && saves >= 1 {
 		b, _ := json.Marshal(s)
 		c.Nontrivial(string(b))
 	}
-	if emit {
-		c.Case(fmt.Sprintf("(CSched %s %s)", s.Cfg.coq(), hx.CoqList(steps)), s)
-	}
+	c.Case(fmt.Sprintf("(CSched %s %s)", s.Cfg.coq(), hx.CoqList(steps)), s)
 	if s.Name != "" || c.Rng.Intn(40) == 0 {
 		c.Sample(map[string]interface{}{"schedule": s, "final_inbounds": r.Ctrl().InboundsCount(), "final_outbounds": r.Ctrl().OutboundsCount(),
 			"outcomes": r.Statuses(), "max_overlap": mw})
@@ -936,45 +960,69 @@ func genSpawn(c *hx.Ctx) Event {
 	return e
 }
 
-// genSched: sequential = every attempt runs to completion before the next starts (never in the
-// finding class); otherwise a random interleaving.
-func genSched(c *hx.Ctx, level string, sequential bool) Sched {
-	s := Sched{Level: level, Cfg: genCfg(c)}
+func pendingThreads(r runner) []int {
+	var l []int
+	for i, st := range r.Statuses() {
+		if st == outPending {
+			l = append(l, i)
+		}
+	}
+	return l
+}
+
+// genNext: sequential = every attempt runs until it has returned before the next one starts
+// (never in the finding class); otherwise a random interleaving of the attempts in flight, with
+// new attempts and closes mixed in. Level B attempts that have failed/returned still get an
+// occasional extra step (their deferred call; or a no-op, which must be a no-op in the model too).
+func genNext(c *hx.Ctx, level string, sequential bool) nextFn {
 	stepKind := "run"
-	perThread := 14
 	if level == "A" {
 		stepKind = "adv"
-		perThread = 5
 	}
-	nThreads := 2 + c.Rng.Intn(5)
-	spawned, live := 0, 0
-	if sequential {
-		for spawned < nThreads {
-			s.Events = append(s.Events, genSpawn(c))
-			s.Events = append(s.Events, rep(Event{Kind: stepKind, Idx: spawned}, perThread)...)
-			spawned++
-			live++ // upper bound; closing a missing index is a no-op on both sides
-			if c.Rng.Intn(3) == 0 {
-				s.Events = append(s.Events, Event{Kind: "close", Idx: c.Rng.Intn(live)})
+	nThreads := 2 + c.Rng.Intn(4)
+	spawned := 0
+	tail := 0
+	return func(r runner, i int) (Event, bool) {
+		if i > 120 {
+			return Event{}, false
+		}
+		pend := pendingThreads(r)
+		nlive := len(r.Live())
+		if sequential {
+			if level == "B" && len(pend) == 0 && spawned > 0 && tail == 0 {
+				tail = 1 // one more step of the last attempt: runs its deferred call if any
+				return Event{Kind: stepKind, Idx: spawned - 1}, true
 			}
+			if len(pend) > 0 {
+				return Event{Kind: stepKind, Idx: pend[0]}, true
+			}
+			if nlive > 0 && c.Rng.Intn(4) == 0 {
+				return Event{Kind: "close", Idx: c.Rng.Intn(nlive + 1)}, true
+			}
+			if spawned < nThreads {
+				spawned++
+				tail = 0
+				return genSpawn(c), true
+			}
+			return Event{}, false
 		}
-		return s
-	}
-	budget := nThreads*perThread + 4
-	for i := 0; i < budget; i++ {
-		x := c.Rng.Intn(10)
+		x := c.Rng.Intn(12)
 		switch {
-		case spawned == 0 || (x < 2 && spawned < nThreads):
-			s.Events = append(s.Events, genSpawn(c))
+		case spawned == 0 || (spawned < nThreads && (x < 2 || len(pend) == 0)):
 			spawned++
-		case x == 9:
-			s.Events = append(s.Events, Event{Kind: "close", Idx: c.Rng.Intn(spawned)})
-		default:
-			// favour round-robin-ish progress so that attempts overlap and also finish
-			s.Events = append(s.Events, Event{Kind: stepKind, Idx: c.Rng.Intn(spawned)})
+			return genSpawn(c), true
+		case x == 11 && nlive > 0:
+			return Event{Kind: "close", Idx: c.Rng.Intn(nlive + 1)}, true
+		case x == 10 && level == "B":
+			return Event{Kind: stepKind, Idx: c.Rng.Intn(spawned + 1)}, true // any attempt, also finished / not existing
+		case len(pend) > 0:
+			return Event{Kind: stepKind, Idx: pend[c.Rng.Intn(len(pend))]}, true
+		case level == "B" && tail < 3:
+			tail++
+			return Event{Kind: stepKind, Idx: c.Rng.Intn(spawned)}, true
 		}
+		return Event{}, false
 	}
-	return s
 }
 
 func Run(c *hx.Ctx) {
@@ -988,26 +1036,26 @@ func Run(c *hx.Ctx) {
 	c.Note("locked sections: " + strings.Join(prog.Sections, ", "))
 	var in Sched
 	if c.ReplayInput(&in) {
-		runSched(c, prog, in, true)
+		runSched(c, prog, in, nil)
 		return
 	}
 	for _, raw := range c.CorpusInputs() {
 		var s Sched
 		if json.Unmarshal(raw, &s) == nil && len(s.Events) > 0 {
-			runSched(c, prog, s, true)
+			runSched(c, prog, s, nil)
 		}
 	}
 	// 1. the witnesses of the Coq refutation, replayed on the implementation on every run
 	for _, s := range witnesses() {
-		runSched(c, prog, s, true)
+		runSched(c, prog, s, nil)
 	}
 	// 2. generated schedules
-	nA := c.N(120, 1500)
-	nB := c.N(600, 8000)
+	nA := c.N(150, 2000)
+	nB := c.N(450, 8000)
 	for i := 0; i < nA; i++ {
-		runSched(c, prog, genSched(c, "A", i%3 == 0), true)
+		runSched(c, prog, Sched{Level: "A", Cfg: genCfg(c)}, genNext(c, "A", i%3 == 0))
 	}
 	for i := 0; i < nB; i++ {
-		runSched(c, prog, genSched(c, "B", i%3 == 0), true)
+		runSched(c, prog, Sched{Level: "B", Cfg: genCfg(c)}, genNext(c, "B", i%3 == 0))
 	}
 }
